@@ -169,6 +169,7 @@ class Enum:
     flags: bool = False
     explicit_values: bool = True
     comment: str = ""
+    base_alias: str = ""   # name of an alias (of the primitive `base`) that the definition names as its base type instead
 
 
 @dataclass
@@ -453,7 +454,9 @@ def render_def(d, rng: Optional[Rng], p_expand: float) -> str:
                 out.append("    %s: %s" % (n, e))
     elif isinstance(d, Enum):
         out.append("%s: %s" % (head, "!flags" if d.flags else "!enum"))
-        if d.base:
+        if d.base and getattr(d, "base_alias", ""):
+            out.append("  base: %s" % d.base_alias)
+        elif d.base:
             out.append("  base: %s" % prim_spelling(d.base, fork("base")))
         out.append("  values:")
         if d.explicit_values:
@@ -933,6 +936,12 @@ class PackageGen:
                     seen.add(v)
                     vals.append(v)
         d = Enum(name, base, list(zip(syms, vals)), flags=flags, explicit_values=True)
+        if base and r.fork("basealias", name).chance(0.3):
+            # the base type named through an alias (`ChannelId: uint16`, `base: ChannelId`)
+            an = self.type_name("Als")
+            self.add(Alias(an, (), Prim(base)), r.fork("basealias2", name).randrange(8))
+            self.pool.append(Named(an))
+            d.base_alias = an
         self.add(d, r.randrange(8))
         self.pool.append(Named(name))
 
